@@ -164,6 +164,21 @@ func (i *interpreter) sprintf(fr *frame, format string, args []value) value {
 			}
 			if ss, ok := u.(symstr); ok && (verb == 's' || verb == 'v') && q == p+1 {
 				out = append(out, ss.b...)
+			} else if ss, ok := u.(symstr); ok && len(ss.b) <= 2 {
+				// any other verb (%q, %x, width/flags) over a short symbolic string: case split over
+				// every feasible value of each symbolic byte (complete, at most 256 values per byte),
+				// then format natively
+				bs := make([]byte, len(ss.b))
+				for k, e := range ss.b {
+					switch x := e.(type) {
+					case uint8:
+						bs[k] = x
+					case *Sym:
+						bs[k] = byte(i.concretizeBits(x))
+					}
+				}
+				b, _ := strBytes(fmt.Sprintf(spec, string(bs)))
+				out = append(out, b...)
 			} else {
 				opaque = true
 				break
